@@ -24,6 +24,17 @@ XCHECK_PER_UNIT = int(os.environ.get('PYVC_XCHECK_PER_UNIT', '6'))
 REPLAYER = None         # set by main: the property module's native replay function
 
 
+def _pstr(p):
+    """printable path-condition conjunct: z3's Python pretty-printer is very slow on large terms, the s-expression printer is not"""
+    try:
+        sx = p.sexpr()
+    except Exception:
+        return str(p)
+    if len(sx) < 400 and '(let ' not in sx:
+        return str(p)
+    return sx[:1500] + (' ...[%d chars]' % len(sx) if len(sx) > 1500 else '')
+
+
 def S_or(xs):
     return core.s_or(*xs)
 
@@ -102,6 +113,29 @@ class Ctx(object):
             return
         self.xresults.append({'obligation': ob['id'], 'model': ob['model'], 'native': nat})
 
+    def cover(self, st, name):
+        """vacuity guard: the hypotheses of the obligations that follow must be satisfiable together with the path condition"""
+        s = core.mk_solver(4000)
+        s.add(*st.pc)
+        s.add(*core.side_conditions())
+        r = s.check()
+        if r == z3.unsat:
+            self.unsupported(name, 'hypotheses are contradictory: the obligations proved under them would be vacuous')
+            return False
+        return True
+
+    def prove_lemma(self, name, hyps, goal, info=None):
+        """closed arithmetic lemma  /\\ hyps ==> goal  over its own symbols (no path condition): used to split a hard obligation
+        into code-dependent identities plus a small abstract inequality"""
+        try:
+            v = vc.prove([core.sbool(h).t for h in hyps], [], goal)
+        except z3.Z3Exception as e:
+            v = vc.Verdict('undecided', backend='z3', note='z3 error: %s' % e)
+
+        class _St(object):
+            pc = [core.sbool(h).t for h in hyps]
+        return self.record(_St, name, v, info, None)
+
     def prove_cases(self, st, name, goal, cases, info=None, replay=None):
         """goal proved separately under each of the (jointly exhaustive) case conditions; exhaustiveness is an
         obligation of its own.  Keeps the nonlinear / If-heavy queries small."""
@@ -116,7 +150,7 @@ class Ctx(object):
         return ok
 
     def record(self, st, name, v, info=None, replay=None):
-        pcs = [str(p) for p in (st.pc if st is not None else [])]
+        pcs = [_pstr(p) for p in (st.pc if st is not None else [])]
         ob = {
             'unit': self.unit.name, 'name': name, 'status': v.status, 'backend': v.backend,
             'secs': round(v.secs, 4), 'pc': pcs, 'note': v.note,
